@@ -60,6 +60,10 @@ class Spec:
             if m:
                 out.append(("Z", int(m.group(1)), "Z", {}))
                 continue
+            m = re.match(r"^A(\d+)$", t)
+            if m:
+                out.append(("A", None, "align", {"align": int(m.group(1))}))
+                continue
             bindto = None
             if "=" in t:
                 t, bindto = t.split("=")
